@@ -83,3 +83,15 @@ silent("C74", "xz-record-wires-as-tuple", [(PT, "        wires = list(op.wires)"
 silent("C74", "order-insensitive-uses-of-sorted-and-set",
        [(PT, "        gate_offset = 4 if len(op.wires) == 1 else 13", "        gate_offset = 4 if len(set(op.wires)) == 1 else 13"),
         (PT, "    num_wires = max(tape.wires) + 1\n\n    x_record", "    num_wires = max(sorted(tape.wires)) + 1\n\n    x_record")])
+
+# --- wire order in graph_state_preparation / decomposition
+_GSP = "pennylane/ftqc/graph_state_preparation.py"
+_DEC = "pennylane/ftqc/decomposition.py"
+fire("C74", "graph-state-nodes-mapped-onto-sorted-wires",
+     (_GSP, "        wire_map = dict(zip(sorted_nodes, wires, strict=True))", "        wire_map = dict(zip(sorted_nodes, sorted(wires), strict=True))"),
+     "R-C74-wireorder", "compute_decomposition")
+fire("C74", "output-sample-wires-follow-the-wire-map-not-the-request",
+     (_DEC, "    new_wires = [wire_map[w] for w in meas_wires]", "    new_wires = [new_w for w, new_w in wire_map.items() if w in meas_wires]"),
+     "R-C74-wireorder", "convert_to_mbqc_formalism")
+silent("C74", "output-sample-wires-built-with-a-generator",
+       [(_DEC, "    new_wires = [wire_map[w] for w in meas_wires]", "    new_wires = list(wire_map[w_] for w_ in meas_wires)")])
